@@ -14,6 +14,7 @@ use std::hash::{BuildHasher, Hash};
 use std::ptr::NonNull;
 use vstd::std_specs::iter::IteratorSpec;
 use vstd::std_specs::ops::*;
+use vstd::std_specs::cmp::*;
 
 pub type KeyId = int;
 pub uninterp spec fn kid<Q: ?Sized>(q: &Q) -> KeyId;
@@ -30,6 +31,13 @@ pub uninterp spec fn dur_ns(d: Duration) -> int;
 pub open spec fn max_dur_ns() -> int { 1000int * 365 * 24 * 3600 * 1_000_000_000 }
 pub broadcast axiom fn axiom_dur_nonneg(d: Duration) ensures #[trigger] dur_ns(d) >= 0;
 pub assume_specification [Duration::is_zero] (d: &Duration) -> (r: bool) ensures r == (dur_ns(*d) == 0);
+// std::cmp::min / max (assumed: the standard library's definition over the type's own total order)
+pub assume_specification<T: Ord>[core::cmp::min::<T>](a: T, b: T) -> (r: T)
+    ensures r == a || r == b,
+        T::obeys_cmp_spec() ==> r == (if a.cmp_spec(&b) == core::cmp::Ordering::Greater { b } else { a });
+pub assume_specification<T: Ord>[core::cmp::max::<T>](a: T, b: T) -> (r: T)
+    ensures r == a || r == b,
+        T::obeys_cmp_spec() ==> r == (if a.cmp_spec(&b) == core::cmp::Ordering::Greater { a } else { b });
 impl PartialEq for Instant {
     #[verifier::external_body]
     fn eq(&self, o: &Instant) -> (r: bool) ensures r == (self.t() == o.t()) { unimplemented!() }
@@ -1447,7 +1455,7 @@ where
             final(self).deques.probation@.len() <= old(self).deques.probation@.len(), final(self).deques.write_order@.len() <= old(self).deques.write_order@.len(), //@
             ord_pres(old(self).deques.probation@, final(self).deques.probation@), //@ [C12,C15]
             // C12: the removed entries are exactly a prefix of the recency order, and the shortest one that frees enough
-            ({ //@ [C12,C04,C03]
+            ({ //@ [C12,C04,C03,C15]
                 let n = old(self).deques.probation@.len() - final(self).deques.probation@.len(); //@
                 let p0 = old(self).deques.probation@; //@
                 &&& final(self).deques.probation@ == p0.skip(n) //@
@@ -1487,7 +1495,7 @@ where
                     core_wf(m0, p0, old(self).deques.write_order@, ttl), //@
                     wo@.len() <= old(self).deques.write_order@.len(), evicted_count == 0 ==> wo@ == old(self).deques.write_order@, //@
                 ensures //@
-                    evicted_policy_weight >= weights_to_evict || evicted_count == 100 || evicted_count == p0.len(), //@ [C04]
+                    evicted_policy_weight >= weights_to_evict || evicted_count == 100 || evicted_count == p0.len(), //@ [C04,C15]
             {
                 if evicted_policy_weight >= weights_to_evict {
                     break;
@@ -2741,6 +2749,23 @@ pub proof fn lemma_c15_pure_observation<K: Hash + Eq, V, S: BuildHasher + Clone>
     lemma_ord_trans(pre.deques.probation@, mid.deques.probation@, post.deques.probation@);
     assert forall|k: KeyId| #[trigger] post.cache@.contains_key(k) implies pre.cache@.contains_key(k) && post.cache@[k] == pre.cache@[k] by {
         assert(mid.cache@.contains_key(k));
+    }
+}
+
+/// C15: the size eviction inside housekeeping finishes its work (fewer residents than one batch): the state an observer
+/// such as `contains_key` leaves behind has no surplus, so the trim the *next* operation starts with is the identity. The
+/// observer has done nothing but the trim that operation would have done itself on the same state.
+pub proof fn lemma_c15_trim_leaves_no_work<K: Hash + Eq, V, S: BuildHasher + Clone>(pre: Cache<K, V, S>, post: Cache<K, V, S>, post2: Cache<K, V, S>)
+    requires Cache::rel_evict_lru(pre, post), pre.wf(), pre.deques.probation@.len() < 100, Cache::rel_evict_lru(post, post2)
+    ensures post.sp_weights_to_evict() == 0, post2.same_views(&post)
+{
+    if pre.max_capacity.is_some() {
+        lemma_c04_c12_eviction(pre, post);
+        let n = pre.deques.probation@.len() - post.deques.probation@.len();
+        if n == pre.deques.probation@.len() {
+            assert(post.deques.probation@.len() == 0);
+            assert(post.weighted_size == 0);
+        }
     }
 }
 
